@@ -456,6 +456,13 @@ public:
             // Calculate the lowest/largest m eigenpairs; Solve the generalized eigenvalue problem.
             DenseSymMatProd<Scalar> Aop(gramA);
             DenseCholesky<Scalar> Bop(gramB);
+            if (Bop.info() != CompInfo::Successful)
+            {
+                // the Gram matrix of [X R D] is not numerically positive definite (the basis has
+                // become linearly dependent): the factorization is unusable, stop here
+                m_info = Eigen::NumericalIssue;
+                break;
+            }
 
             // nev < ncv <= rows must hold: keep min(10, rows - 1) where it is legal, else 2 * nev capped by the pencil size
             int ncv = (std::min)(10, int(gramA.rows()) - 1);
@@ -533,7 +540,12 @@ public:
 
         if (BlockSize == 0)
         {
-            m_info = Eigen::Success;
+            // the residual test is only meaningful for a B-orthonormal block (the Rayleigh-Ritz step
+            // assumes X'BX = I and never restores it): a collapsed or blown-up iterate must not be
+            // reported as converged
+            const Matrix XBX = Matrix(X.transpose() * BX);
+            const Scalar orth_err = (XBX - Matrix::Identity(m_nev, m_nev)).cwiseAbs().maxCoeff();
+            m_info = (orth_err < sqrt(Eigen::NumTraits<Scalar>::epsilon())) ? Eigen::Success : Eigen::NumericalIssue;
         }
     }  // compute
 
